@@ -210,4 +210,16 @@ theorem stepLocal_early (F : Flags) (o : Obs) (x : Act) (ev : Ev) (y : Act) (eff
   all_goals (try (simp_all; done))
   all_goals (simp_all)
 
+/-! ### commands start only from `body` / `defers` -/
+
+set_option maxHeartbeats 1000000 in
+theorem stepLocal_cmd (F : Flags) (o : Obs) (x : Act) (ev : Ev) (y : Act) (eff : Eff)
+    (h : stepLocal F o x ev = some (y, eff)) :
+    (∀ i s d, ev = .cmdStart i s d → (x.phase = .body ∨ x.phase = .defers) ∧ y.phase = .inShell i d) ∧
+    (∀ i r, ev = .cmdEnd i r → ∃ d, x.phase = .inShell i d) ∧
+    (∀ i d, ev = .callRelease i d → (x.phase = .body ∨ x.phase = .defers) ∧ y.phase = .inCall i d) := by
+  steplocal_cases h
+  all_goals (try (simp_all; done))
+  all_goals (refine ⟨by simp, ?_, by simp⟩; intro i r he; cases he; simp_all)
+
 end TaskModel.Sched
